@@ -185,7 +185,11 @@ def check_pair(name, tier, twin=False):
     esel = [z3.Int(f"e{i}") for i in range(L)]
     asel = [z3.Int(f"a{i}") for i in range(L)]
     pre = [z3.And(s >= 0, s < len(P)) for s in esel]
-    nargsets = (3 if name == "cse_mixin_args" else len(ARGSETS)) if uses_args else 1
+    # histories of length 3 (thorough) use three argument sets (two positional, one keyword) to keep (|P|*sets)^L in reach
+    argsets = ARGSETS if L <= 2 else [ARGSETS[0], ARGSETS[1], ARGSETS[4]]
+    nargsets = (3 if name == "cse_mixin_args" else len(argsets)) if uses_args else 1
+    if name == "cse_mixin_args":
+        argsets = ARGSETS[:3]
     pre += [z3.And(s >= 0, s < nargsets) for s in asel]
 
     def harness():
@@ -193,7 +197,7 @@ def check_pair(name, tier, twin=False):
         m = mkc()
         bad = []
         for step, (ei, ai) in enumerate(hist):
-            args = ARGSETS[ai] if uses_args else ()
+            args = argsets[ai] if uses_args else ()
             if name == "walk":
                 m.seen = set()
             try:
@@ -220,7 +224,7 @@ def check_pair(name, tier, twin=False):
                 break
         return hist, bad
 
-    ex = Explorer(pre=pre, max_paths=(len(P) * len(ARGSETS)) ** L + 10, timeout_ms=10000)
+    ex = Explorer(pre=pre, max_paths=(len(P) * len(argsets)) ** L + 10, timeout_ms=10000)
     paths = list(ex.run(harness))
     for path in paths:
         res.path_assertions += 1
@@ -228,7 +232,7 @@ def check_pair(name, tier, twin=False):
             raise HarnessError(f"pair {name}: {path.exc!r}")
         hist, bad = path.result
         for step, h, got, exp in bad[:1]:
-            calls = [(repr(P[e])[:60], ARGSETS[a] if uses_args else ()) for e, a in h[:step + 1]]
+            calls = [(repr(P[e])[:60], argsets[a] if uses_args else ()) for e, a in h[:step + 1]]
             _viol(res, f"pair {name} history={h[:step + 1]}", f"memo-{name}",
                   f"after the calls {calls} on one memoizing instance the last result is {got[1]!r}; "
                   f"the non-memoizing mapper applied afresh gives {exp[1]!r}")
